@@ -5,7 +5,7 @@
    literally [forall script : list decision] (any length, any reply codes and texts, drops anywhere). *)
 From Coq Require Import String.
 From Verif Require Import Bytes Textproto SendErr RefServer SmtpSend SmtpSendGen.
-From VerifProofs Require Import SmtpSendProofs SmtpSendGenProofs SmtpSendCorollaries SmtpSendRefuted.
+From VerifProofs Require Import SmtpSendProofs SmtpSendGenProofs SmtpSendCorollaries SmtpSendDialProofs SmtpSendRefuted.
 
 (* T1: the source under test has the expectCode literals and the recovery actions the theorems assume *)
 Theorem C04_source_expect_codes : gen_expects = std_expects.
@@ -33,6 +33,30 @@ Theorem C04_legal_source : forall cfg render caps script ms,
   all_legal (o_world o) = true /\ all_attributed (o_world o) = true.
 Proof. exact run_legal_source. Qed.
 Print Assumptions C04_legal_source.
+
+(* The dial prefix.  The first event of every run is the greeting (the server speaks first, the client reads);
+   unless the greeting was answered 220 the client never sends anything (the run ends with the dial error) —
+   for every script, i.e. for 4yz / 5yz / any other code / a dropped connection at the greeting. *)
+Theorem C04_nothing_before_greeting : forall F cfg render caps script ms,
+  let o := run_case std_expects F cfg caps script ms render in
+  exists ev0 rest, w_trace (o_world o) = ev0 :: rest /\ ev_cmd ev0 = CGreet /\
+                   (ev_code ev0 <> 220%N -> rest = [] /\ o_ret o = RetDial).
+Proof. exact greeting_first. Qed.
+Print Assumptions C04_nothing_before_greeting.
+
+(* After a successful dial (EHLO accepted with 250, or EHLO refused / dropped and HELO accepted) the client's
+   extension map is exactly the set of the EHLO the server accepted last, or nil after the HELO fallback —
+   and with a nil map MAIL and RCPT carry no parameter at all.  (That every parameter actually sent is covered
+   by the server's latest EHLO set at that moment is part of C04_legal.) *)
+Theorem C04_ext_map_replaced : forall cfg caps script w1 c,
+  dial std_expects cfg (world_init caps script) = (w1, Some c) ->
+  s_open (w_srv w1) = true /\ s_helo (w_srv w1) = true /\
+  match c_ext c with
+  | Some l => l = s_ext (w_srv w1) /\ l = s_caps (w_srv w1)
+  | None => s_ext (w_srv w1) = [] /\ mail_params c = [] /\ rcpt_params c = []
+  end.
+Proof. exact dial_ext. Qed.
+Print Assumptions C04_ext_map_replaced.
 
 (* After every message of every batch (failed or not), the next one starts from a clean transaction —
    server idle, not in data mode, no unread reply, no open dot-writer — or the connection is closed. *)
